@@ -31,8 +31,8 @@ class OracleMixin:
         try:
             if req.kind == "map":
                 (x,) = args
-                i = x[2]
-                ok = x is req.elements[i] and not kwargs
+                i = next(j for j, e in enumerate(req.elements) if e is x)
+                ok = not kwargs
             elif req.kind == "starmap":
                 base, i = args
                 ok = base is req.elements[i][0] and not kwargs
